@@ -444,6 +444,11 @@ func propC06(j *Job) {
 		}
 	}
 	runCases(j, cases, func(spec *xferSpec) func(m *Sim, x *Exec, r *xferResult) { return prFinal(spec, false) })
+	for _, mode := range modes {
+		for _, lim := range []uint32{0, 2} {
+			j.Explore(fmt.Sprintf("PRR/%s/rx%d", mode.Name, lim), prAfterPeerResetScenario(withBase(mode.A, 228, 0xFFFFFFFA, 4000), withBase(mode.B, 228, 50, 4000), lim), Budget{}, nil)
+		}
+	}
 }
 
 func propC07(j *Job) {
@@ -598,4 +603,100 @@ func famM1(modes []modeSpec, thorough bool) []xferCase {
 		}
 	}
 	return out
+}
+
+// prAfterPeerResetScenario: the peer has reset its direction of a stream (the local side read
+// end-of-stream) while the local direction stays open and keeps its retransmission limit: a
+// message written then and lost is sent no more often than the limit allows.
+func prAfterPeerResetScenario(a, b epCfg, limit uint32) *Scenario {
+	return &Scenario{
+		Name:    "pr-after-peer-reset",
+		Horizon: 120 * time.Second,
+		Body: func(m *Sim) {
+			if !m.Connect(a, b) {
+				m.Failf("connect", "handshake failed: %v %v", m.Err[0], m.Err[1])
+				m.closeFailedTransports()
+				m.CloseBoth()
+				return
+			}
+			sa, _ := m.As[0].OpenStream(1, PayloadTypeWebRTCBinary)
+			sb, _ := m.As[1].OpenStream(1, PayloadTypeWebRTCBinary)
+			m.streamsSeen = append(m.streamsSeen, sa, sb)
+			sa.SetReliabilityParams(false, ReliabilityTypeRexmit, limit)
+			var got []string
+			rdB := m.Go("readB", func() {
+				buf := make([]byte, 2000)
+				for {
+					n, _, err := sb.ReadSCTP(buf)
+					if err != nil {
+						return
+					}
+					m.mu.Lock()
+					got = append(got, string(buf[:n]))
+					m.mu.Unlock()
+				}
+			})
+			eofA := false
+			rdA := m.Go("readA", func() {
+				buf := make([]byte, 2000)
+				for {
+					if _, _, err := sa.ReadSCTP(buf); err != nil {
+						eofA = true
+						return
+					}
+				}
+			})
+			_, _ = sa.WriteSCTP(payload(1, 0, 30), PayloadTypeWebRTCBinary)
+			m.Sleep(500 * time.Millisecond)
+			_ = sb.Close() // B resets its outgoing direction
+			if !m.WaitUntil("reset-at-A", 20*time.Second, func() bool { return eofA }) {
+				m.Failf("pr.base", "A never saw the end of the peer's direction")
+			}
+			m.Sleep(time.Second)
+			if sa.State() != StreamStateOpen {
+				m.Failf("pr.base", "A's direction is %v after the peer reset its own", sa.State())
+			}
+			// every DATA packet from A is lost from now on for 20 s
+			lossy := true
+			m.W.killFn = func(p *wpkt) bool {
+				if !lossy || p.from != 0 || p.dec == nil {
+					return false
+				}
+				for _, c := range p.dec.Chunks {
+					if c.Typ == wDATA || c.Typ == wIDATA {
+						return true
+					}
+				}
+				return false
+			}
+			ev0 := len(m.W.events)
+			msg := payload(1, 1, 40)
+			if _, err := sa.WriteSCTP(msg, PayloadTypeWebRTCBinary); err != nil {
+				m.Failf("pr.base", "write on the still open direction: %v", err)
+			}
+			m.Sleep(20 * time.Second)
+			lossy = false
+			n, fwd := 0, 0
+			for _, ev := range m.W.events[ev0:] {
+				if ev.Kind != "send" || ev.From != 0 || ev.Pkt.dec == nil {
+					continue
+				}
+				for _, c := range ev.Pkt.dec.Chunks {
+					if (c.Typ == wDATA || c.Typ == wIDATA) && string(c.Data) == string(msg) {
+						n++
+					}
+					if c.Typ == wFWDTSN || c.Typ == wIFWDTSN {
+						fwd++
+					}
+				}
+			}
+			if n > int(limit)+1 {
+				m.Failf("policy.rexmit", "after the peer reset its direction of the stream a message with retransmission limit %d was put on the wire %d times in 20 s of total loss (%d forward-TSN chunks)", limit, n, fwd)
+			}
+			m.Observe("sent=%d fwd=%d", n, fwd)
+			m.CloseBoth()
+			m.Join(rdA, rdB)
+		},
+		Final: func(m *Sim, x *Exec) { generalVerdicts(m, x, false) },
+	}
 }
